@@ -1,6 +1,7 @@
 """C18 — provisional nodes resolve at execution time; generated tasks run in the same build."""
 from __future__ import annotations
 
+import os
 from concurrent.futures import ThreadPoolExecutor
 
 from impl import builder, prov_api as pa
@@ -124,8 +125,10 @@ def oracle(hist, records):
                                          f"but it started before {k} had finished; reports {order}", None))
         # (9) failures: dependants of a failed task do not run; nothing starts after the failure limit; exit code
         edges = set()
+        pat_edges = set()
         prod_of = {}
-        statics = [u for u in spec["tasks"] if u.get("parent") is None]
+        # collected tasks and the tasks generators always define (also those created after the failure: ee6b73e)
+        statics = [u for u in spec["tasks"]]
         for u in statics:
             for pnode in u["prods"]:
                 prod_of[pnode] = u["id"]
@@ -136,21 +139,39 @@ def oracle(hist, records):
             for q in statics:
                 if q["id"] != u["id"] and set(q["pprods"]) & set(u["pdeps"]):
                     edges.add((q["id"], u["id"]))
-        failed = [t for t, oc in reps if oc == "FAIL"]
-        for f in set(failed):
-            desc, stack = set(), [f]
+                    pat_edges.add((q["id"], u["id"]))
+
+        def below(root, es):
+            desc, stack = set(), [root]
             while stack:
                 a = stack.pop()
-                for (u, v) in edges:
+                for (u, v) in es:
                     if u == a and v not in desc:
                         desc.add(v)
                         stack.append(v)
-            for d in desc:
-                if stopped or d not in pos or pos[d] < pos[f] or d not in static_ids or f not in static_ids:
+            return desc
+        failed = [t for t, oc in reps if oc == "FAIL"]
+        # known finding F42: a task skipped because an ancestor failed has its pattern dependencies resolved at its (skipped)
+        # setup; the re-created DAG no longer connects it to the failed producer, and tasks a generator defines below it afterwards
+        # get no mark. Class: the dependant is a generated task, and every path from the failed task to it runs through the
+        # pattern dependency of a task that was reported SKIP_PREVIOUS_FAILED before the dependant's generator ran.
+        cut = {u for u in byid if outcome.get(u) == "SKIP_PREVIOUS_FAILED" and byid[u]["pdeps"]}
+        for f in set(failed):
+            for d in byid:
+                if stopped or d not in pos or pos[d] < pos[f] or f not in byid or d == f:
+                    continue
+                # tasks that existed when d was handed out: collected ones, and those whose generator had run
+                alive = {x for x, sx in byid.items() if sx.get("parent") is None or (sx["parent"] in pos and pos[sx["parent"]] < pos[d])}
+                live_edges = {e for e in edges if e[0] in alive and e[1] in alive}
+                if d not in below(f, live_edges):
                     continue
                 if d in starts or outcome[d] != "SKIP_PREVIOUS_FAILED":
+                    gen_d = byid[d].get("parent")
+                    cut_now = {u for u in cut if gen_d is not None and gen_d in pos and pos[u] < pos[gen_d]}
+                    uncut = {e for e in live_edges if not (e in pat_edges and e[1] in cut_now)}
+                    finding = "F42" if gen_d is not None and cut_now and d not in below(f, uncut) else None
                     bad.append(("failure", f"build {bi}: task {d} depends on task {f}, which FAILED earlier in this build, but it was not skipped "
-                                           f"(outcome {outcome[d]}, body {'ran' if d in starts else 'did not run'}); reports {reps}", None))
+                                           f"(outcome {outcome[d]}, body {'ran' if d in starts else 'did not run'}); reports {reps}", finding))
         mf = (hist.get("kw") or {}).get("max_failures")
         if mf is not None and len(failed) >= mf:
             idx = [i for i, (t, oc) in enumerate(reps) if oc == "FAIL"][int(mf) - 1]
@@ -163,9 +184,10 @@ def oracle(hist, records):
         for g, spec_g in byid.items():
             if not spec_g.get("gen") or g not in pos:
                 continue
-            bad_kids = [k["id"] for k in spec["tasks"] if k.get("parent") == g and k.get("uncollectable")]
+            bad_kids = [k["id"] for k in spec["tasks"] if k.get("parent") == g and (k.get("uncollectable") or k.get("alias") is not None)]
             if bad_kids and g in starts and not spec_g.get("fails"):
-                # a defined task that cannot be collected is not dropped silently: the generator fails, nothing it defined runs
+                # a defined task that cannot be collected, or that takes the name of an existing task, is not dropped / merged silently:
+                # the generator fails, nothing it defined runs
                 fixed = [k["id"] for k in spec["tasks"] if k.get("parent") == g]
                 if outcome[g] != "FAIL":
                     bad.append(("generated", f"build {bi}: generator {g} defined task(s) {bad_kids} that cannot be collected but was reported {outcome[g]}", None))
@@ -227,10 +249,22 @@ def oracle(hist, records):
                     nkids = len([k for k in spec["tasks"] if k.get("parent") == t])
                     got_any = t in rline and any(rline[t][0])
                     excused = st.get("fails") or (nkids == 0 and not (t in perfile and got_any)) or \
-                        any(k.get("uncollectable") for k in spec["tasks"] if k.get("parent") == t)
+                        any(k.get("uncollectable") or k.get("alias") is not None for k in spec["tasks"] if k.get("parent") == t)
                 else:
                     need = list(st["deps"]) + ([st["cnt"]] if st.get("cnt") is not None else [])
                     excused = st.get("fails") or any(d not in rec["post"] or d not in rec["pre"] and d in spec["inputs"] for d in need)
+                    for k in pa.after_ids(spec, st):
+                        sk = byid.get(k)
+                        # `after=` makes every product of the target — ordinary, and the files a pattern product was resolved to —
+                        # a dependency of the task: a missing one excuses the failure, and so does a pattern product in a
+                        # directory where another producer's pattern overlaps (that producer may remove the files)
+                        if sk is not None and any(p_ not in rec["post"] for p_ in sk["prods"]):
+                            excused = True
+                        if sk is None and k not in rec["post"]:
+                            excused = True       # a copy task: its product is node k
+                        if sk is not None and sk["pprods"]:
+                            kr = set().union(*[ranges[p] for p in sk["pprods"]])
+                            excused = excused or any(w != k and r & kr for w, r in writers.items())
                     crange = set().union(*[ranges[p] for p in st["pdeps"]]) if st["pdeps"] else set()
                     # a matched file removed by an overlapping producer between the resolution and the read
                     excused = excused or any(w in starts and r & crange for w, r in writers.items() if w != t and not set(byid[w]["pprods"]) & set(st["pdeps"]))
@@ -310,7 +344,27 @@ def corpus():
                                             _t(4, deps=[102], prods=[211], parent=2, uncollectable=True), _t(5, pdeps=[f0], prods=[212])],
                     "perfile": {"2": 20000}, "inputs": {"100": 2, "102": 4}, "version": 0},
            "steps": [["build"], ["build"]]}
-    return [f11, f11b, f13, mix, pers, gf1, gf1, gf2, gf2, aft, aft, meta, unc]
+    # a task fails (early / after writing its product); afterwards a generator defines tasks below it: they are skipped (ee6b73e)
+    late = {"tag": "corpus-defined-below-failed",
+            "spec": {"pats": pats, "tasks": [_t(1, deps=[102], prods=[220], fails="late"), _t(2, deps=[102], prods=[221], fails=True),
+                                             _t(3, cnt=100, pprods=[f0], fails="late"), _t(4, deps=[102], gen=True),
+                                             _t(5, deps=[220], prods=[222], parent=4), _t(6, deps=[221], prods=[223], parent=4),
+                                             _t(7, pdeps=[f0], prods=[224], parent=4)],
+                     "perfile": {}, "inputs": {"100": 2, "102": 4}, "version": 0},
+            "steps": [["build"], ["build"]]}
+    # F42 witness: 1 (pattern producer) fails; 2 (pattern consumer, product 101 left over) is skipped; then generator 5 defines 6 <- 101
+    f38 = {"tag": "corpus-F42",
+           "spec": {"pats": pats, "tasks": [_t(1, pprods=[f0], fails=True), _t(2, deps=[100], pdeps=[f0], prods=[101]), _t(5, gen=True),
+                                            _t(6, deps=[101, 105], prods=[106], parent=5)],
+                    "perfile": {}, "inputs": {"100": 12, "105": 17, "101": 5}, "version": 0},
+           "steps": [["build"]]}
+    # a generator defining a task with the name of a collected task: it fails, nothing is added (6571c4f)
+    clash = {"tag": "corpus-name-clash",
+             "spec": {"pats": pats, "tasks": [_t(1, deps=[102], prods=[230]), _t(2, deps=[102], gen=True), _t(3, deps=[102], prods=[231], parent=2),
+                                              _t(4, deps=[102], prods=[232], parent=2, alias=1)],
+                      "perfile": {}, "inputs": {"102": 4}, "version": 0},
+             "steps": [["build"], ["build"]]}
+    return [f11, f11b, f13, mix, pers, gf1, gf1, gf2, gf2, aft, aft, meta, unc, late, late, clash] + [f38] * 4
 
 
 def gen_genfail(rng):
@@ -348,9 +402,20 @@ def gen_genfail(rng):
     return h
 
 
+def corpus_files():
+    """stored cases (corpus/C18/*.json): past false alarms and minimised disagreements; they must stay quiet"""
+    import json
+    import common
+    out = []
+    for f in sorted((common.VERIF / "corpus" / "C18").glob("*.json")):
+        h = json.loads(f.read_text())
+        out.append({"tag": h.get("tag", f.stem), "spec": h["spec"], "steps": h["steps"], **({"kw": h["kw"]} if h.get("kw") else {})})
+    return out
+
+
 def histories(ctx):
     rng = ctx.rng
-    hs = corpus()
+    hs = corpus() + corpus_files()
     for _ in range(ctx.scale(6, 60)):
         hs.append(gen_genfail(rng))
     for _ in range(ctx.scale(50, 600)):
@@ -425,6 +490,71 @@ def evaluate(ctx, hs, all_records):
                                  {"history": h, "step": i, "what": what, "impl": iv, "model": mv, "layer": "prov-e2e"})
 
 
+def inproc_stream(ctx):
+    """The same user task objects passed to `pytask.build(tasks=[...])` several times in one process while the matching files
+    change: every call receives the files matching at that moment; the user's objects keep their DirectoryNodes (oracle only)."""
+    import json
+    import shutil
+    import subprocess
+    import common
+    rng = ctx.rng
+    worker = str(common.VERIF / "harness" / "impl" / "prov_inproc_worker.py")
+    for i in range(ctx.scale(4, 16)):
+        producer = i % 2 == 1
+        steps, names = [["write", "a.txt", 1]], ["a.txt"]
+        steps.append(["build"])
+        for _ in range(rng.randint(1, 3)):
+            for _ in range(rng.randint(1, 2)):
+                if producer and rng.random() < 0.5:
+                    steps.append(["write", "n.txt", rng.randint(2, 4)])
+                elif rng.random() < 0.7:
+                    nm = f"x{len(names)}.txt"
+                    names.append(nm)
+                    steps.append(["write", nm, rng.randint(1, 9)])
+                else:
+                    steps.append(["write", rng.choice(names), rng.randint(10, 99)])
+            steps.append(["build"])
+        _inproc_one(ctx, steps, producer, rng.randrange(1, 10**6))
+
+
+def _inproc_one(ctx, steps, producer, hashseed):
+    import json
+    import shutil
+    import subprocess
+    import common
+    worker = str(common.VERIF / "harness" / "impl" / "prov_inproc_worker.py")
+    if True:
+        root = common.scratch_dir("provin")
+        try:
+            env = dict(os.environ, PYTHONHASHSEED=str(hashseed), PYTHONDONTWRITEBYTECODE="1")
+            r = subprocess.run([common.PY, worker], input=json.dumps({"root": str(root), "steps": steps, "producer": producer}) + "\n",
+                               capture_output=True, text=True, env=env, cwd="/", timeout=300)
+        finally:
+            shutil.rmtree(root, ignore_errors=True)
+        if r.returncode != 0 or not r.stdout.strip():
+            raise common.InfraError(f"in-process worker failed: {r.stderr[-300:]}")
+        builds = json.loads(r.stdout.strip().splitlines()[-1])["builds"]
+        replay = {"layer": "prov-inproc", "steps": steps, "producer": producer}
+        ctx.case(["inproc", steps, producer], len(builds) >= 2, None)
+        ctx.dist["inproc_histories"] += 1
+        prev_files = None
+        for bi, b in enumerate(builds):
+            if b.get("raised") or b.get("exit") != 0:
+                ctx.violation(f"build: in-process build {bi} raised / exit {b.get('exit')!r} {b.get('raised')!r}", replay)
+                break
+            for c in b["calls"]:
+                if c["task"] == "consume" and c["got"] != c["seen"]:
+                    ctx.violation(f"resolve: in-process build {bi} (same task objects as in the builds before): task_consume received "
+                                  f"{c['got']} but the files matching at its start are {c['seen']}", replay)
+            ran = any(c["task"] == "consume" for c in b["calls"])
+            if prev_files is not None and set(b["files_now"]) - set(prev_files) and not ran:
+                ctx.violation(f"rerun: in-process build {bi}: new matching files {sorted(set(b['files_now']) - set(prev_files))} but task_consume "
+                              f"was not executed ({b['outcomes']})", replay)
+            if any(k != "DirectoryNode" for k in b["kinds"].values()):
+                ctx.violation(f"resolve: after in-process build {bi} the user's task objects no longer hold their DirectoryNode: {b['kinds']}", replay)
+            prev_files = b["files_now"]
+
+
 def run(ctx):
     ctx.rule = ("generated projects with tasks depending on / producing DirectoryNode patterns and @task(is_generator=True) generators (per-file copy "
                 "tasks and fixed tasks), built repeatedly through pytask.build under several PYTHONHASHSEEDs while producer counts grow / shrink, "
@@ -434,12 +564,18 @@ def run(ctx):
     hs = histories(ctx)
     recs = run_histories(ctx, hs)
     evaluate(ctx, hs, recs)
+    inproc_stream(ctx)
     # self-test of the oracle: the F11 witness must still be flagged (unless the defect has been repaired)
     ctx.extra["f11_witness_detected"] = "F11" in {v["finding"] for v in ctx.violations}
 
 
 def replay(ctx, obj):
     inp = obj["input"]
+    if inp.get("layer") == "prov-inproc":
+        _inproc_one(ctx, inp["steps"], inp["producer"], 1)
+        if ctx.violations:
+            return False, ctx.violations[0]["what"]
+        return True, "the re-used task objects receive the files matching at each build"
     hs = [inp["history"]] * 4
     recs = run_histories(ctx, hs, nseeds=4)
     evaluate(ctx, hs, recs)
